@@ -309,7 +309,7 @@ def r6(run, ctx):
     kills = [n for n in ctx.live_nodes(v) if any(
         dotted(c.func) == 'os.kill' and len(c.args) == 2 and
         astq.const_value(c.args[1], None) == 0 for c in n.calls())]
-    run.count('R6', len(rets), 5, 'returns of Pidfile.validate')
+    run.count('R6', len(rets), 3, 'returns of Pidfile.validate')
     if run.need('R6', kills, 'os.kill(pid, 0) probe in validate', v) and \
             run.need('R6', nonnull, 'a pid-returning path in validate', v):
         for n in nonnull:
